@@ -53,6 +53,8 @@ class EventBase(ObjectWithFields):
             raise ValueError('event version must be 0 or 1')
         if self.timescale > 0xFFFFFFFF or self.duration > 0xFFFFFFFF:
             raise ValueError('event timescale and duration are 32 bit fields of an emsg box')
+        if self.interval * 1000 < self.timescale:
+            raise ValueError('events must be at least one millisecond apart')
 
     @abstractmethod
     def create_manifest_context(self, context: dict) -> dict:
